@@ -78,9 +78,10 @@ def classify_stderr(text, repo=None):
     return kind, site
 
 
-def run_cases(exe, lines, env=None, per_batch_timeout=120, args=(), wrapper=()):
+def run_cases(exe, lines, env=None, per_batch_timeout=120, args=(), wrapper=(), max_crashes=25):
     results = [None] * len(lines)
     start = 0
+    crashes = 0
     env = san_env(env)
     while start < len(lines):
         batch = lines[start:]
@@ -123,4 +124,7 @@ def run_cases(exe, lines, env=None, per_batch_timeout=120, args=(), wrapper=()):
         results[bad] = {"crash": {"rc": rc, "timeout": timed_out, "class": classify_stderr(err),
                                   "stderr": err[-6000:]}}
         start = bad + 1
+        crashes += 1
+        if crashes >= max_crashes:
+            break   # remaining entries stay None (callers report them as inconclusive)
     return results
